@@ -24,7 +24,9 @@ import (
 	"github.com/regclient/regclient/types/ref"
 	"github.com/regclient/regclient/verifhook"
 
+	"verifharness/imgen"
 	"verifharness/lib"
+	"verifharness/memreg"
 	"verifharness/memrt"
 )
 
@@ -731,6 +733,90 @@ func genSingle(r *lib.Rand) Case {
 	return c
 }
 
+// runCrossCopy: AcquireMulti as image copies use it.  G pairs of copies run in opposite directions between two registries
+// whose host throttles have Max[0] slots each (a blob copy asks for the source's and the target's throttle together): every
+// copy finishes, whatever the interleaving, and is complete.
+func runCrossCopy(c Case, res *lib.Result) {
+	regs := map[string]*memreg.Registry{"a.example": memreg.New("a.example", memreg.Features{}), "b.example": memreg.New("b.example", memreg.Features{})}
+	type imgT struct{ g *imgen.Graph }
+	var imgs []imgT
+	for i := 0; i < 2*c.G; i++ {
+		g := &imgen.Graph{}
+		var layers []*imgen.Node
+		for l := 0; l < 3; l++ {
+			layers = append(layers, g.Blob([]byte(fmt.Sprintf("c17x-%d-layer-%d-%d", c.Seed, i, l)), imgen.MTLayer))
+		}
+		cfg := g.Blob([]byte(fmt.Sprintf(`{"architecture":"amd64","os":"linux","config":{"Labels":{"i":"%d"}},"rootfs":{"type":"layers","diff_ids":[]}}`, i)), imgen.MTConfig)
+		g.Root = g.Image(false, cfg, layers, nil, nil, fmt.Sprint(i))
+		src := "a.example"
+		if i%2 == 1 {
+			src = "b.example"
+		}
+		g.Load(regs[src], fmt.Sprintf("src%d", i), "v1")
+		imgs = append(imgs, imgT{g})
+	}
+	rt := &memrt.RT{}
+	rt.Handler = func(req *http.Request, body []byte, n int) *http.Response {
+		time.Sleep(time.Duration((uint64(n)*2654435761+c.Seed)%400) * time.Microsecond)
+		if r := regs[req.URL.Host]; r != nil {
+			return r.Handle(req, body, n)
+		}
+		return nil
+	}
+	hosts := []config.Host{{Name: "a.example", Hostname: "a.example", TLS: config.TLSDisabled, ReqConcurrent: int64(c.Max[0])},
+		{Name: "b.example", Hostname: "b.example", TLS: config.TLSDisabled, ReqConcurrent: int64(c.Max[0])}}
+	rc := regclient.New(regclient.WithConfigHosts(hosts), regclient.WithRegOpts(reg.WithHTTPClient(&http.Client{Transport: rt}), reg.WithDelay(time.Millisecond, 3*time.Millisecond)))
+	ctx, cancel := context.WithTimeout(context.Background(), 15*time.Second)
+	defer cancel()
+	var wg sync.WaitGroup
+	errs := make([]error, len(imgs))
+	for i := range imgs {
+		wg.Add(1)
+		go func(i int) {
+			defer wg.Done()
+			defer func() {
+				if p := recover(); p != nil {
+					errs[i] = fmt.Errorf("panic: %v", p)
+				}
+			}()
+			src, tgt := "a.example", "b.example"
+			if i%2 == 1 {
+				src, tgt = tgt, src
+			}
+			rs, _ := ref.New(fmt.Sprintf("%s/src%d:v1", src, i))
+			rtg, _ := ref.New(fmt.Sprintf("%s/tgt%d:v1", tgt, i))
+			errs[i] = rc.ImageCopy(ctx, rs, rtg)
+		}(i)
+	}
+	wg.Wait()
+	if ctx.Err() != nil {
+		res.Fail("cross-copies-deadlock", fmt.Sprintf("%d copies in opposite directions between two registries with %d request slot(s) each: not finished after 15s (errors %v)", len(imgs), c.Max[0], errs), c)
+		return
+	}
+	for i, e := range errs {
+		if e != nil {
+			res.Fail("cross-copy-failed", fmt.Sprintf("copy %d of %d failed with no fault injected: %v", i, len(imgs), e), c)
+			return
+		}
+		tgt := "b.example"
+		if i%2 == 1 {
+			tgt = "a.example"
+		}
+		regs[tgt].Lock()
+		rp := regs[tgt].Repos[fmt.Sprintf("tgt%d", i)]
+		n := 0
+		if rp != nil {
+			n = len(rp.Blobs)
+		}
+		regs[tgt].Unlock()
+		if n < 4 {
+			res.Fail("cross-copy-incomplete", fmt.Sprintf("copy %d reported success, the target repository holds %d of 4 blobs", i, n), c)
+			return
+		}
+	}
+	res.Count(fmt.Sprintf("crosscopy:max=%d,pairs=%d", c.Max[0], c.G))
+}
+
 func runCase(c Case, res *lib.Result) (ret string) {
 	defer res.Recover(c)
 	return runCaseRaw(c, res)
@@ -746,6 +832,8 @@ func runCaseRaw(c Case, res *lib.Result) string {
 		runMultiRand(c, res)
 	case "httpresume":
 		runHTTPResume(c, res)
+	case "crosscopy":
+		runCrossCopy(c, res)
 	}
 	return ""
 }
@@ -794,6 +882,9 @@ func Run(o lib.Opts) {
 	// the host throttle under resumed reads: one slot and one reader, n slots and n readers, more readers than slots
 	for _, mg := range [][3]int{{1, 1, 1}, {1, 1, 2}, {1, 3, 1}, {2, 2, 2}, {3, 3, 1}, {2, 5, 2}} {
 		all = append(all, Case{Kind: "httpresume", Max: []int{mg[0]}, G: mg[1], Iters: mg[2]})
+	}
+	for i, mg := range [][2]int{{1, 1}, {1, 2}, {2, 2}, {3, 3}, {1, 3}} {
+		all = append(all, Case{Kind: "crosscopy", Max: []int{mg[0]}, G: mg[1], Seed: uint64(900 + i)})
 	}
 	nS, nM, nR := o.Scale(300, 12000), o.Scale(40, 1500), o.Scale(25, 600)
 	for i := 0; i < nS; i++ {
